@@ -214,6 +214,12 @@ func (o *OvsdbServer) Transact(client *rpc2.Client, args []json.RawMessage, repl
 	}
 	response, updates := o.transact(db, ops)
 	if malformed != nil {
+		// the checks made at the end of a transaction (references, indexes)
+		// do not apply to one that stops at an operation: only the results of
+		// the operations themselves are kept
+		if len(response) > len(ops) {
+			response = response[:len(ops)]
+		}
 		failed := false
 		for _, operResult := range response {
 			failed = failed || operResult == nil || operResult.Error != ""
